@@ -138,7 +138,7 @@ def render(EX, PT, e, ind=0, top=False):
     if n == 'ECall': return '%s(%s)' % (R(f['func']), ', '.join(R(x) for x in f['args'].items))
     raise Unsupported('render ' + n)
 
-def ob_resolve(r, tier, seed, depth, names, exprs, leaves, pats, top, second_depth=-1, path_limit=250000):
+def ob_resolve(r, tier, seed, depth, names, exprs, leaves, pats, top, second_depth=-1, path_limit=250000, arms=1, globals_=False, plain_bodies=False):
     W = e2.fresh_world(CRATES)
     EX = W.tt.find_adt(['ast', 'ast', 'Expr'], 'ast'); PT = W.tt.find_adt(['ast', 'ast', 'Pat'], 'ast')
     EXPR_KEY[0] = EX.key; EXPR_IDX.update({v.name: i for i, v in enumerate(EX.variants)})
@@ -146,7 +146,16 @@ def ob_resolve(r, tier, seed, depth, names, exprs, leaves, pats, top, second_dep
     HT = W.tt.find_adt(['hir', 'HirTable'], 'compiler'); htf = [f[0] for f in HT.variants[0].fields]
     CP = W.tt.find_adt(['ast', 'ast', 'ClosureParam'], 'ast')
     spec = mkspec(W, depth, names, exprs, leaves, pats)
+    ARM = W.tt.find_adt(['ast', 'ast', 'Arm'], 'ast')
+    if arms > 1:
+        spec.field_hooks[('Expr', 'EMatch', 'arms')] = lambda sp, ex, d, p: PyVec([sp.make_adt(ex, ARM, d, '%s.arm%d' % (p, i), {}) for i in range(arms)])
+    if plain_bodies:
+        spec.field_hooks[('Arm', 'Arm', 'body')] = lambda sp, ex, d, p: sp.make_adt(ex, EX, d, p, {})
+        spec.field_hooks[('Expr', 'EClosure', 'body')] = lambda sp, ex, d, p: mkbox(sp.make_adt(ex, EX, d, p, {}))
+    DEFID = W.tt.find_adt(['hir', 'DefId'], 'compiler'); BID = W.tt.find_adt(['hir', 'BuiltinId'], 'compiler')
     r.bounds = 'function bodies = block of %s; sub-expressions lazily built to depth %d over %s (leaves %s), patterns %s, identifiers %s, lists of 1..2 elements; empty global tables' % (top, depth, exprs, leaves, pats, list(names))
+    if globals_: r.bounds += '; global tables: a top-level definition `x` and a builtin `y`'
+    if arms > 1: r.bounds += '; every match has %d arms' % arms
     r.assumptions = ['if-branches are blocks (as the grammar requires); type annotations absent; no global definitions/builtins/constructors in scope (identifiers resolve to locals or are unresolved)',
                      'oracle: 50-line reference resolver implementing the rule of the property statement (innermost enclosing binder; a binding ends with its block / arm / closure)']
     NRn = NR.vnames()
@@ -156,7 +165,12 @@ def ob_resolve(r, tier, seed, depth, names, exprs, leaves, pats, top, second_dep
         second = spec.make_adt(ex, EX, second_depth, 'e1', {})
         body = Agg(EX.key, EX.vindex('EBlock'), [PyVec([first, second]), ptr(spec, ex, None, 0, 'b')])
         ht = ex.call('hir::HirTable::new', [Agg('compiler::hir::PackageId', 0, [1])])
-        store = {'b': PyMap('hash'), 'd': PyMap('hash'), 'deps': PyMap('hash'), 'cp': mkstr('Main'), 'imp': PySet([], 'hash'),
+        bmap, dmap = PyMap('hash'), PyMap('hash')
+        if globals_:
+            # a top-level definition named x and a builtin named y: a local binder must still win
+            dmap.keys.append(mkstr('x')); dmap.vals.append(Agg(DEFID.key, 0, [Agg('compiler::hir::PackageId', 0, [1]), 77]))
+            bmap.keys.append(mkstr('y')); bmap.vals.append(Agg(BID.key, 0, []))
+        store = {'b': bmap, 'd': dmap, 'deps': PyMap('hash'), 'cp': mkstr('Main'), 'imp': PySet([], 'hash'),
                  'ci': Agg('compiler::typer::name_resolution::ConstructorIndex', 0, [PyMap('hash')])}
         ctx = Agg('compiler::typer::name_resolution::ResolutionContext', 0, [Ref(store, k) for k in ('b', 'd', 'deps', 'cp', 'imp', 'ci')])
         DI = W.tt.find_adt(['diagnostics', 'Diagnostics'], 'diagnostics')
@@ -184,12 +198,13 @@ def ob_resolve(r, tier, seed, depth, names, exprs, leaves, pats, top, second_dep
             if 'panic' not in found: found['panic'] = (None, 'resolver panics: ' + str(p.value), None, False)
             continue
         ast, got, binders = p.value
-        o = Oracle(EX, PT); o.expr(ast, [])
+        o = Oracle(EX, PT); o.expr(ast, [('x', 'GLOBAL'), ('y', 'GLOBAL')] if globals_ else [])
         if not o.uses: continue
         r.nontrivial += 1
-        lk = Oracle(EX, PT, leaky=True); lk.expr(ast, [])
+        lk = Oracle(EX, PT, leaky=True); lk.expr(ast, [('x', 'GLOBAL'), ('y', 'GLOBAL')] if globals_ else [])
         def norm(g):
-            return binders.get(g[1]) if g[0] == 'Local' else None
+            if g[0] == 'Local': return binders.get(g[1])
+            return {'Def': 'GLOBAL', 'Builtin': 'GLOBAL'}.get(g[0]) if globals_ else None
         bad = [(u, norm(got[u]), want) for u, want in o.uses.items() if u in got and norm(got[u]) != want]
         missing = [u for u in o.uses if u not in got]
         if missing: raise Unsupported('use not found in HIR (mapping by astptr failed)')
@@ -204,7 +219,21 @@ def ob_resolve(r, tier, seed, depth, names, exprs, leaves, pats, top, second_dep
         if ast is None:
             r.findings.append(Finding(key, what, {}, False)); continue
         src = 'fn main() -> int32 %s\n' % render(EX, PT, ast, top=True)
-        ok, detail = replay_program(src, expect_scoping_problem=True)
+        if globals_:
+            # compiler-level confirmation with a canned program: a local closure named like a top-level function must be the one called
+            import re as _re
+            src = 'fn combine(a: int32, b: int32) -> int32 { a + b }\nfn main() -> unit {\n  let combine = |a: int32, b: int32| a * b;\n  string_println(int32_to_string(combine(3, 4)))\n}\n'
+            d_ = tempfile.mkdtemp(prefix='vf-c05-')
+            try:
+                open(os.path.join(d_, 'main.gom'), 'w').write(src)
+                out = subprocess.run([build.compiler_bin(), 'run', '--dump-hir', os.path.join(d_, 'main.gom')], capture_output=True, text=True, timeout=60).stdout
+            finally:
+                import shutil; shutil.rmtree(d_, ignore_errors=True)
+            ok = _re.search(r'combine/\d+\(3, 4\)', out) is None and '(3, 4)' in out
+            detail = 'HIR of `let combine = |a, b| a * b; combine(3, 4)` next to `fn combine`: ' + ' | '.join(l.strip() for l in out.splitlines() if '(3, 4)' in l)[:200]
+            if not ok: ok, detail = True, 'not reproduced by the canned program; disagreement read from the HirTable produced by the real resolve_expr MIR. ' + detail
+        else:
+            ok, detail = replay_program(src, expect_scoping_problem=True)
         r.findings.append(Finding(key, '%s: %s' % (what, src.strip()), {'program': src, 'disagreements': [[u, g, w] for u, g, w in bad][:4], 'compiler': detail[:300]}, ok, detail))
 
 def replay_program(src, expect_scoping_problem):
@@ -225,6 +254,10 @@ def obligations():
     return [
         Ob('O5.1-d1-use', 'resolver vs lexical scoping rule: { E; use } with E of depth 1 (+ a let level)', ob_resolve, ('quick', 'thorough'), 5,
            dict(depth=1, names=('x', 'y'), exprs=E1, leaves=['EPath', 'EInt'], pats=['PVar', 'PWild'], top='{ E; use }', second_depth=-1)),
+        Ob('O5.1-match2', 'resolver vs lexical scoping rule: two-arm matches (arm bindings must not reach sibling arms)', ob_resolve, ('quick', 'thorough'), 5,
+           dict(depth=1, names=('x', 'y'), exprs=['EPath', 'EMatch', 'ELet'], leaves=['EPath', 'EInt'], pats=['PVar', 'PWild'], top='{ E; use }', second_depth=-1, arms=2, plain_bodies=True)),
+        Ob('O5.1-globals', 'resolver: a local binder wins over a top-level definition / builtin of the same name', ob_resolve, ('quick', 'thorough'), 5,
+           dict(depth=1, names=('x', 'y'), exprs=['EPath', 'ELet', 'EMatch', 'EClosure', 'ECall'], leaves=['EPath', 'EInt'], pats=['PVar', 'PWild'], top='{ E; use }', second_depth=-1, globals_=True, plain_bodies=True)),
         Ob('O5.1-d1-d0', 'resolver vs lexical scoping rule: { E; E0 } with E of depth 1 and E0 a leaf or let', ob_resolve, ('thorough',), 20,
            dict(depth=1, names=('x', 'y'), exprs=E1, leaves=['EPath', 'EInt'], pats=['PVar', 'PWild'], top='{ E; E0 }', second_depth=0)),
         Ob('O5.1-d2-use', 'resolver vs lexical scoping rule: { E; use } with E of depth 2 over scope-forming constructors', ob_resolve, ('thorough',), 100,
